@@ -654,6 +654,17 @@ def s3_wrapper_primitives(ctx: Ctx):
                   + (' (lngamma is log(gamma(x)), NaN where gamma(x) < 0; lgamma is log|gamma(x)|)' if name == '_gmp_lgamma' else ''))
     if found < 4:
         raise ShapeError('wrapper functions missing')
+    # the way in: an operand reaches MPFR with its sign, the special ones included (copysign, and the sign rules of
+    # products and quotients, read the sign of an infinity or a NaN)
+    fn = ctx.fn(GMPUTILS, 'float_to_mpfr')
+    sp = [r for r in ast.walk(fn) if isinstance(r, ast.Return) and isinstance(r.value, ast.Call) and any(call_name(k) in ('gmp.nan', 'gmp.inf') for k in ast.walk(r.value) if isinstance(k, ast.Call))]
+    if len(sp) < 2:
+        raise ShapeError('float_to_mpfr: the NaN and infinity arms were not found')
+    for r in sp:
+        v = r.value
+        ok = call_name(v) == 'gmp.set_sign' and len(v.args) == 2 and norm(v.args[1]) == 'x.s'      # type: ignore
+        ctx.check(ok, GMPUTILS, r, 'float_to_mpfr', f'`{norm(r)}` hands MPFR the operand\'s sign',
+                  'the special value is built without the sign of the operand: copysign(3, -NaN) is +3 under every rounding context and -3 under the real one')
 
 
 # ----------------------------------------------------------------------
